@@ -1,4 +1,4 @@
-//! E1: explicit-state search (stateright) over input histories. Every reachable state within the
+//! E1: explicit-state search over input histories (own parallel BFS, or stateright). Every reachable state within the
 //! bound is generated once (stateright deduplicates by state hash) and the invariant, which
 //! executes the real blockwatch code on the input the state denotes, is evaluated in every one of
 //! them. Failures are collected on the side (the stateright property itself never "discovers"
@@ -91,8 +91,68 @@ impl<S: Space> Model for Wrapper<S> {
     }
 }
 
-/// Explores `space` completely (BFS, or DFS for big spaces) and returns what was covered.
-pub fn explore<S: Space>(
+/// Explores `space` completely and returns what was covered.
+///
+/// Default engine: a level-synchronous parallel breadth-first search written for this harness
+/// (work is handed out state by state, so spaces whose invariant is expensive — a git diff, a CLI
+/// run — still use every core; stateright hands out blocks of 1500 states). Visited states are
+/// kept exactly (no fingerprint collisions). `BWMC_ENGINE=stateright` selects the stateright
+/// checker instead; the thorough tiers cross-check the state counts of the two engines.
+pub fn explore<S: Space>(name: &str, bound: &str, space: S, sink: &Arc<Sink>, threads: usize, dfs: bool) -> Phase {
+    if std::env::var("BWMC_ENGINE").as_deref() == Ok("stateright") {
+        return explore_stateright(name, bound, space, sink, threads, dfs);
+    }
+    let threads = threads.max(1);
+    let mut visited: std::collections::HashSet<S::State> = std::collections::HashSet::new();
+    let mut frontier: Vec<S::State> = Vec::new();
+    for s in space.init() {
+        if visited.insert(s.clone()) {
+            frontier.push(s);
+        }
+    }
+    let (mut states, mut transitions, mut depth) = (0u64, 0u64, 0u64);
+    while !frontier.is_empty() {
+        depth += 1;
+        states += frontier.len() as u64;
+        let next_index = std::sync::atomic::AtomicUsize::new(0);
+        let chunk = (frontier.len() / (threads * 16)).clamp(1, 256);
+        let produced: Vec<Vec<S::State>> = std::thread::scope(|scope| {
+            let handles: Vec<_> = (0..threads.min(frontier.len()))
+                .map(|_| {
+                    scope.spawn(|| {
+                        let mut local = Vec::new();
+                        loop {
+                            let start = next_index.fetch_add(chunk, Ordering::Relaxed);
+                            if start >= frontier.len() {
+                                break;
+                            }
+                            for state in &frontier[start..(start + chunk).min(frontier.len())] {
+                                space.check(state, sink);
+                                local.extend(space.succ(state));
+                            }
+                        }
+                        local
+                    })
+                })
+                .collect();
+            handles.into_iter().map(|h| h.join().expect("explorer thread")).collect()
+        });
+        let mut next = Vec::new();
+        for batch in produced {
+            transitions += batch.len() as u64;
+            for s in batch {
+                if visited.insert(s.clone()) {
+                    next.push(s);
+                }
+            }
+        }
+        frontier = next;
+    }
+    Phase { name: name.to_string(), states, transitions, max_depth: depth, exhaustive: true, bound: bound.to_string() }
+}
+
+/// The same exploration with the stateright checker.
+pub fn explore_stateright<S: Space>(
     name: &str,
     bound: &str,
     space: S,
